@@ -224,7 +224,8 @@ Returns:
 
         nvars = len(variables)
         if hasattr(self, 'LLOD_FLAG'):
-            llod_values = loddelim.sub('\n', self.LLOD_VALUE).split()
+            llod_values = loddelim.sub(
+                '\n', getattr(self, 'LLOD_VALUE', default_llod_value)).split()
             if len(llod_values) == 1:
                 llod_values *= nvars
             elif len(llod_values) == (nvars - 1):
@@ -246,7 +247,8 @@ Returns:
             llod_values = [default_llod_value] * len(scales)
 
         if hasattr(self, 'ULOD_FLAG'):
-            ulod_values = loddelim.sub('\n', self.ULOD_VALUE).split()
+            ulod_values = loddelim.sub(
+                '\n', getattr(self, 'ULOD_VALUE', default_ulod_value)).split()
             if len(ulod_values) == 1:
                 ulod_values *= nvars
             elif len(ulod_values) == (nvars - 1):
